@@ -355,7 +355,7 @@ class Ctx:
         if self.both and r in ("sat", "unsat"):
             s = self._solver()
             s.add(z3.Not(e))
-            r2 = _cvc5_check(s, self.timeout_ms)
+            r2 = _cvc5_check(s, min(self.timeout_ms, 15000))     # the second opinion is a cross-check, not the verdict: bounded so that it cannot eat the task's time limit
             if r2 in ("sat", "unsat") and r2 != r:
                 self.obligations.append(Obligation(name, "undecided", "z3/cvc5 DISAGREE", dt, detail, None, path, kind))
                 return False
